@@ -1489,8 +1489,11 @@ class System:
         for n in self._topo_nodes:
             tname = self._g[n]._component_type.name
             if tname == "SOURCE":
-                dname = self._g[n]._params["name"]
                 src_cnt += 1
+            r = n
+            while self._parents[r] != -1:
+                r = self._parents[r][0]
+            dname = self._g[r]._params["name"]
             ph_names = []
             if tname == "SLOSS":
                 ph_names += ["N/A"]
